@@ -4,6 +4,7 @@
 From Coq Require Import List ZArith String.
 From Sismic Require Import Base Chart Interp World Spec.
 From SismicProofs Require Import C07Proofs.
+From SismicProofs Require CorollaryProofs WFProofs.
 Import ListNotations.
 Open Scope string_scope.
 
@@ -115,6 +116,42 @@ Theorem C07_decl_order_perm_thm :
               (execute_once ctx X exec eval emit sc2 fuel now s2)).
 Proof. exact C07_decl_order_perm. Qed.
 Print Assumptions C07_decl_order_perm_thm.
+
+(* ... with well-formedness (DESIGN.md section 2, decidable wf_chart_b) and duplicate-free dictionaries of the FIRST chart as the only chart hypotheses: the permuted chart is then well-formed too *)
+Theorem C07_decl_order_perm_wf_thm :
+  forall (ctx X : Type) (exec : call ctx -> ctx -> option (ctx * list event))
+           (eval : call ctx -> ctx -> option bool) (emit : Z -> meta -> X -> X * option err) 
+           (sc1 sc2 : chart),
+         C02Proofs.wf_chart_b sc1 = true ->
+         WFProofs.dict_ok sc1 ->
+         perm_chart sc1 sc2 ->
+         (forall (pi : nat -> nat) (c : call ctx) (x : ctx), exec (cmap pi c) x = exec c x) ->
+         (forall (pi : nat -> nat) (c : call ctx) (x : ctx), eval (cmap pi c) x = eval c x) ->
+         (forall (pi : nat -> nat) (t : Z) (m : meta) (x : X) (e : err),
+          snd (emit t m x) = Some e -> emap pi e = e) ->
+         C02Proofs.wf_chart_b sc2 = true /\
+         WFProofs.dict_ok sc2 /\
+         (exists pi : nat -> nat,
+            chart_perm sc1 sc2 pi /\
+            (forall (fuel : nat) (now : Z) (s1 s2 : mstate ctx X),
+             run_equiv pi s1 s2 ->
+             decl_outcome pi (execute_once ctx X exec eval emit sc1 fuel now s1)
+               (execute_once ctx X exec eval emit sc2 fuel now s2))).
+Proof. exact WFProofs.C07_decl_order_perm_wf. Qed.
+Print Assumptions C07_decl_order_perm_wf_thm.
+
+(* the side conditions of C07_decl_order_perm hold of every statechart built through the API or imported (sound) *)
+Theorem desc_ok_of_sound_thm :
+  forall c : chart,
+         CorollaryProofs.E.sound c -> CorollaryProofs.E.no_empty_name c -> CorollaryProofs.C7.desc_ok c.
+Proof. exact CorollaryProofs.desc_ok_of_sound. Qed.
+Print Assumptions desc_ok_of_sound_thm.
+
+(* ... *)
+Theorem decl_wf_of_sound_thm :
+  forall c : chart, CorollaryProofs.E.sound c -> CorollaryProofs.C7.decl_wf c.
+Proof. exact CorollaryProofs.decl_wf_of_sound. Qed.
+Print Assumptions decl_wf_of_sound_thm.
 
 (* e.g. reversing every declaration list *)
 Theorem perm_chart_rev_thm :
